@@ -3,6 +3,7 @@ import CallbagModel.Inv.Combine
 import CallbagModel.Inv.ComposeInst
 import CallbagModel.Inv.ComposeSafe
 import CallbagModel.Inv.Concat
+import CallbagModel.Inv.FlatPlugSafe
 import CallbagModel.Inv.Flatten
 import CallbagModel.Inv.ForEach
 import CallbagModel.Inv.FromIter
@@ -85,6 +86,11 @@ theorem C02_plugged {S1 L1 S2 L2 α β γ : Type} {M1 : Machine S1 L1 α β} {M2
     ∀ s, SReach (plug j M1 M2) s → SafeFor 2 s :=
   fun s hs => safeFor_of_basicSafe _ s hs (PlugSafe.plug_basicSafe H j s hs) 2 (by decide)
 
+theorem C02_flatten_network {So Lo Si Li αo αi : Type} {Mo : Machine So Lo αo Int} {Mi : Machine Si Li αi Int} {initOf : Int → Si}
+    (H : FlatPlugSafe.HypF Mo Mi initOf) :
+    ∀ s, SReach (flatPlug Mo Mi initOf) s → SafeFor 2 s :=
+  fun s hs => safeFor_of_basicSafe _ s hs (FlatPlugSafe.flatPlug_basicSafe H s hs) 2 (by decide)
+
 
 /-! ## What the monitor verdict means, in terms of the trace alone
 
@@ -153,6 +159,11 @@ theorem C02_closed_pipeline_readable {S1 L1 S2 L2 α β γ : Type} {Msrc : Machi
 theorem C02_plugged_readable {S1 L1 S2 L2 α β γ : Type} {M1 : Machine S1 L1 α β} {M2 : Machine S2 L2 β γ} (H : PlugSafe.HypP M1 M2) (j : Nat) :
     ∀ s, SReach (plug j M1 M2) s → ∀ k, TerminalFinal k s.tr :=
   fun s hs k => (readable_of_noViols hs (PlugSafe.plug_basicSafe H j s hs).1 k).2.1
+
+theorem C02_flatten_network_readable {So Lo Si Li αo αi : Type} {Mo : Machine So Lo αo Int} {Mi : Machine Si Li αi Int} {initOf : Int → Si}
+    (H : FlatPlugSafe.HypF Mo Mi initOf) :
+    ∀ s, SReach (flatPlug Mo Mi initOf) s → ∀ k, TerminalFinal k s.tr :=
+  fun s hs k => (readable_of_noViols hs (FlatPlugSafe.flatPlug_basicSafe H s hs).1 k).2.1
 
 /-- the oracle that judges traces recorded from the real crate IS the monitor of these theorems: on every model execution the
 machine-free monitor `monRun` (Mon.lean), folded over the boundary trace alone, computes exactly the ghost carried by the configuration
